@@ -375,13 +375,31 @@ pub fn c06(args: &Args) -> Acc {
             ops.push(op);
         }
         history_hostile(&mut rng, &mut ops, 0xFF, buf_len.min(4), !crate::small() && buf_len > 0);
-        let case = || J::obj().with("spi_buffer_len", buf_len).with("calls", ops.iter().map(|o| o.json()).collect::<Vec<_>>());
+        // the staging buffer starts at any address modulo 4 (a sub-slice of a bigger array)
+        let buf_off = rng.below(4) as usize;
+        // every fourth case: a second interface object whose D/C pin handle is the same physical
+        // wire (two displays with separate chip selects and a shared D/C line, decoded here as one
+        // byte stream); calls alternate between the two objects at random
+        let shared_dc = buf_len >= 4 && rng.chance(1, 4);
+        let which: Vec<bool> = ops.iter().map(|_| shared_dc && rng.bool()).collect();
+        let case = || {
+            J::obj()
+                .with("spi_buffer_len", buf_len)
+                .with("spi_buffer_address_mod_4", buf_off)
+                .with("calls", ops.iter().map(|o| o.json()).collect::<Vec<_>>())
+                .with("second_interface_on_the_same_dc_wire_used_for_calls", which.iter().enumerate().filter(|(_, b)| **b).map(|(i, _)| i as u64).collect::<Vec<_>>())
+        };
         let tl = Tl::new(8);
         // sentinel pattern in the staging buffer
-        let mut buf: Vec<u8> = (0..buf_len).map(|i| 0xA0 | (i as u8 & 0xF)).collect();
-        let mut di = SpiInterface::new(tl.spi(), tl.pin(Src::Dc), &mut buf[..]);
+        let (buf, _keep) = crate::rig::spi_buffer(buf_len, buf_off);
+        let (buf2, _keep2) = crate::rig::spi_buffer(buf_len.max(4), (buf_off + 1) % 4);
+        let mut di = SpiInterface::new(tl.spi(), tl.pin(Src::Dc), buf);
+        let mut di2 = SpiInterface::new(tl.spi(), tl.pin(Src::Dc), buf2);
+        if shared_dc {
+            a.count("sequences_over_two_interfaces_sharing_the_dc_wire", 1);
+        }
         let mut h = std::collections::hash_map::DefaultHasher::new();
-        std::hash::Hash::hash(&(buf_len, &ops), &mut h);
+        std::hash::Hash::hash(&(buf_len, &ops, buf_off, &which), &mut h);
         a.case_hash(std::hash::Hasher::finish(&h), ops.iter().any(|o| !matches!(o, TOp::Cmd { .. })));
         a.seen("buffer_lengths", format!("{}", buf_len));
         for (i, op) in ops.iter().enumerate() {
@@ -391,7 +409,7 @@ pub fn c06(args: &Args) -> Acc {
             let budget = 64 + 4 * words;
             let txn0 = tl.0.borrow().spi_txns;
             tl.begin_call(budget, None);
-            let r = guarded(|| apply_u8(&mut di, op));
+            let r = if which[i] { guarded(|| apply_u8(&mut di2, op)) } else { guarded(|| apply_u8(&mut di, op)) };
             tl.end_call();
             let got = strip_delays(tl.take_bus());
             let sig_op = match op {
@@ -539,8 +557,8 @@ pub fn c06(args: &Args) -> Acc {
             };
             let tl = Tl::new(8);
             tl.b().effect = effect;
-            let mut buf: Vec<u8> = (0..buf_len).map(|i| 0xA0 | (i as u8 & 0xF)).collect();
-            let mut di = SpiInterface::new(tl.spi(), tl.pin(Src::Dc), &mut buf[..]);
+            let (buf, _keep) = crate::rig::spi_buffer(buf_len, (f1 + k1 as usize) % 4);
+            let mut di = SpiInterface::new(tl.spi(), tl.pin(Src::Dc), buf);
             let mut h = std::collections::hash_map::DefaultHasher::new();
             std::hash::Hash::hash(&(buf_len, &ops, f1, k1, effect as u8), &mut h);
             let mut after_fault = false;
@@ -616,7 +634,7 @@ impl OutputPin for CountPin<'_> {
     fn set_high(&mut self) -> Result<(), Fault> {
         let v = self.0.get() + 1;
         // a terminating, correct implementation needs exactly count*N rising edges
-        if v > (1u64 << 33) + 16 {
+        if v > (1u64 << 35) + 16 {
             std::panic::panic_any(BudgetExceeded { ops: v });
         }
         self.0.set(v);
@@ -798,6 +816,48 @@ pub fn c07(args: &Args) -> Acc {
                 }
                 after_fault = false;
             }
+            // every third case: one more call is cut short by a fault and the interface is then
+            // taken apart with release(). Handing the pins back must not touch them: with WR left
+            // low and half a word on the bus, one more edge would latch a word nobody sent
+            if idx % 3 == 0 {
+                let last = TOp::Pixels { n: 2, px: vec![[0x07, 0x15, 0, 0], [0x22, 0x38, 0, 0]] };
+                tl.begin_call(64 + 24 * last.words(), Some(2 + (idx / 3) % 9));
+                let _ = guarded(|| match (&mut di8, &mut di16) {
+                    (Some(d), _) => apply_u8(d, &last).map_err(|e| format!("{:?}", e)),
+                    (_, Some(d)) => apply_u16(d, &last).map_err(|e| format!("{:?}", e)),
+                    _ => unreachable!(),
+                });
+                tl.end_call();
+                let _ = tl.take_bus();
+                let (edges0, writes0) = {
+                    let t = tl.0.borrow();
+                    (t.wr_edges, t.pin_writes)
+                };
+                let r = guarded(|| {
+                    if let Some(d) = di8.take() {
+                        drop(d.release());
+                    }
+                    if let Some(d) = di16.take() {
+                        drop(d.release());
+                    }
+                });
+                let (edges1, writes1) = {
+                    let t = tl.0.borrow();
+                    (t.wr_edges, t.pin_writes)
+                };
+                a.count("releases_after_a_failed_call_checked", 1);
+                let latched = strip_delays(tl.take_bus());
+                if r.is_err() || edges1 != edges0 || writes1 != writes0 || !latched.is_empty() {
+                    a.violate(
+                        "words-faults",
+                        idx,
+                        "release/touches-the-pins",
+                        format!("ParallelInterface::release() after a failed call: {} pin writes, {} WR rising edges, latched {:?}", writes1 - writes0, edges1 - edges0, latched),
+                        case(),
+                    );
+                    return;
+                }
+            }
             a.case_hash(std::hash::Hasher::finish(&h), faults_hit > 0);
             if idx < 2 {
                 a.sample(case());
@@ -917,7 +977,8 @@ pub fn c07(args: &Args) -> Acc {
     // runs (valgrind)
     if args.want_stage("huge") && args.scale >= 1.0 {
         let mut a = Acc::new();
-        for (n, count) in [(2usize, 1u32 << 31), (4, 1 << 30), (3, 1431655766), (1, u32::MAX)] {
+        // exactly 2^32 strobes, just above it (a loop counted in 32-bit chunks), and the maximum
+        for (n, count) in [(2usize, 1u32 << 31), (2, (1 << 31) + 1), (4, 1 << 30), (3, 1431655766), (1, u32::MAX), (3, 1431655767), (4, u32::MAX)] {
             if args.quick() && n != 2 {
                 continue;
             }
@@ -937,7 +998,7 @@ pub fn c07(args: &Args) -> Acc {
             a.count("wr_rising_edges_counted", edges.get());
             match r {
                 Err(CallResult::Panic { msg, loc }) => a.violate("huge", n as u64, format!("send_repeated_pixel/panic@{}[count*N>=2^32]", loc), msg, case),
-                Err(_) => a.violate("huge", n as u64, "send_repeated_pixel/no-termination[count*N>=2^32]", "more than 2^33 strobes", case),
+                Err(_) => a.violate("huge", n as u64, "send_repeated_pixel/no-termination[count*N>=2^32]", "more than 2^35 strobes", case),
                 Ok(Err(e)) => a.violate("huge", n as u64, "send_repeated_pixel/spurious-error", format!("{:?}", e), case),
                 Ok(Ok(())) => {
                     if edges.get() != want {
@@ -973,6 +1034,8 @@ pub fn c05(args: &Args) -> Acc {
             (ModelId::Ext256x256, Tr::P16),
             (ModelId::Ext240x320c666, Tr::Spi),
             (ModelId::Ext240x320c666, Tr::P8),
+            // a user-written serial interface that takes 16-bit words
+            (ModelId::Ext256x256, Tr::L1S16),
         ];
         // shard each combo's value space
         let shards_per = 16u64;
@@ -1062,7 +1125,7 @@ pub fn c05(args: &Args) -> Acc {
     if args.want_stage("models") {
         let mut list: Vec<(ModelId, Tr)> = Vec::new();
         for m in crate::rig::builtin() {
-            for t in [Tr::Spi, Tr::P8, Tr::P16] {
+            for t in [Tr::Spi, Tr::P8, Tr::P16, Tr::L1S16] {
                 if t.type_checks(m.bits()) && m.supports(t.kind()) {
                     list.push((m, t));
                 }
@@ -1133,7 +1196,7 @@ pub fn c05(args: &Args) -> Acc {
     if args.want_stage("history") {
         let mut list: Vec<(ModelId, Tr)> = Vec::new();
         for m in crate::rig::builtin() {
-            for t in [Tr::Spi, Tr::P8, Tr::P16] {
+            for t in [Tr::Spi, Tr::P8, Tr::P16, Tr::L1S16] {
                 if t.type_checks(m.bits()) && m.supports(t.kind()) {
                     list.push((m, t));
                 }
@@ -1154,7 +1217,8 @@ pub fn c05(args: &Args) -> Acc {
             let c = rng.next() as u32 & mask;
             let fill = |rng: &mut Rng, c: u32| {
                 let w = rng.range(1, 24) as u32;
-                let h = rng.range(1, 4) as u32;
+                // now and then several hundred pixels (longer than any staging-buffer fast path needs)
+                let h = if rng.chance(1, 4) { rng.range(6, 24) } else { rng.range(1, 4) } as u32;
                 Op::FillSolid { rect: crate::ops::Rect { x: rng.range(0, 24 - w as i64) as i32, y: rng.range(0, 24 - h as i64) as i32, w, h }, c }
             };
             let mut prog = vec![fill(&mut rng, c)];
